@@ -607,7 +607,10 @@ impl<'a, B: BitmapSlice> VolatileSlice<'a, B> {
         // operations such as copy with read_volatile and write_volatile?
         unsafe {
             let count = min(self.size, slice.size);
-            copy(self.addr, slice.addr, count);
+            // Guards keep memory that is only mapped on demand mapped during the copy.
+            let src = self.ptr_guard();
+            let dst = slice.ptr_guard_mut();
+            copy(src.as_ptr(), dst.as_ptr(), count);
             slice.bitmap.mark_dirty(0, count);
         }
     }
@@ -1256,7 +1259,10 @@ where
         // operations such as copy with read_volatile and write_volatile?
         unsafe {
             let count = min(self.len() * self.element_size(), slice.size);
-            copy(self.addr, slice.addr, count);
+            // Guards keep memory that is only mapped on demand mapped during the copy.
+            let src = self.ptr_guard();
+            let dst = slice.ptr_guard_mut();
+            copy(src.as_ptr(), dst.as_ptr(), count);
             slice.bitmap.mark_dirty(0, count);
         }
     }
